@@ -145,7 +145,7 @@ func checkC02(w *World, r *Report) {
 	c02Branch(w, r, a, cmpFn)
 	c02Predicates(w, r, a, cmpFn)
 	c02Responses(w, r, a)
-	c02OneSnapshot(w, r, a)
+	c02OneSnapshot(w, r, a, "C02.e", "e-one-snapshot")
 	c02Readonly(w, r, a)
 }
 
@@ -735,8 +735,8 @@ func c02Responses(w *World, r *Report, a *FsmA) {
 	ob.NeedFloor(9)
 }
 
-func c02OneSnapshot(w *World, r *Report, a *FsmA) {
-	ob := r.Ob("C02.e", "e-one-snapshot", "in the read-only transaction arm of Lookup every pebble.Reader handed to the compare helper and to the range reads is the same NewSnapshot() result", "predicates and reads on different views are not atomic")
+func c02OneSnapshot(w *World, r *Report, a *FsmA, id, slug string) {
+	ob := r.Ob(id, slug, "in the read-only transaction arm of Lookup every pebble.Reader handed to the compare helper and to the range reads is the same NewSnapshot() result", "predicates and reads on different views are not atomic")
 	var arm *ssa.BasicBlock
 	ctx := &ExprCtx{}
 	for _, b := range a.Lookup.Blocks {
